@@ -504,3 +504,169 @@ Proof. exists [0; 1; 0; 1]. vm_compute. auto. Qed.
 Example quota_guard_nonvacuous :
   overlap_free 10 (9, repeat QStart 3) [0; 0; 1; 2; 1] = true /\ fst (qrun 10 9 (repeat QStart 3) [0; 0; 1; 2; 1]) = 10.
 Proof. vm_compute. auto. Qed.
+
+(* ================================================================ 5. the count as a fold over fallible reads *)
+Lemma count_reads_le p : forall recs f c, count_reads p recs f = Some c -> c <= active recs.
+Proof.
+  induction recs as [|a rs IH]; intros f c H; cbn in *.
+  - injection H as <-. lia.
+  - destruct (match f with [] => false | x :: _ => x end).
+    + destruct p; [discriminate| |]; specialize (IH _ _ H); unfold active in *; destruct a; lia.
+    + destruct (count_reads p rs (match f with [] => [] | _ :: fs => fs end)) as [c'|] eqn:E; [|discriminate].
+      injection H as <-. specialize (IH _ _ E). unfold active in *. destruct a; lia.
+Qed.
+
+(* with the aborting listing a count that comes back at all is the true count, whatever reads were marked to fail *)
+Lemma count_reads_abort_exact : forall recs f c, count_reads Abort recs f = Some c -> c = active recs.
+Proof.
+  induction recs as [|a rs IH]; intros f c H; cbn in *.
+  - injection H as <-. reflexivity.
+  - destruct (match f with [] => false | x :: _ => x end); [discriminate|].
+    destruct (count_reads Abort rs (match f with [] => [] | _ :: fs => fs end)) as [c'|] eqn:E; [|discriminate].
+    injection H as <-. rewrite (IH _ _ E). unfold active. destruct a; reflexivity.
+Qed.
+
+(* without a failing read every policy counts exactly *)
+Lemma count_reads_no_fault p : forall recs, count_reads p recs [] = Some (active recs).
+Proof.
+  induction recs as [|a rs IH]; cbn; [reflexivity|]. rewrite IH. unfold active. destruct a; reflexivity.
+Qed.
+
+(* a request that is not admitted changes nothing — every policy *)
+Lemma admit_not_created_unchanged p max recs i f :
+  fst (admit_once p max recs i f) <> ACreated -> snd (admit_once p max recs i f) = recs.
+Proof.
+  unfold admit_once.
+  destruct (if i then match p with Open => Some 0 | _ => None end else count_reads p recs f) as [c|]; [|reflexivity].
+  destruct (max <=? c); cbn; [reflexivity|congruence].
+Qed.
+
+(* FAIL CLOSED: with the aborting listing, a request at (or over) the full quota is refused or fails and changes
+   nothing, whichever reads fail (the index read, any subset of the by-id reads) *)
+Theorem quota_fail_closed max recs i f :
+  max <= active recs ->
+  fst (admit_once Abort max recs i f) <> ACreated /\ snd (admit_once Abort max recs i f) = recs.
+Proof.
+  intros Hfull.
+  assert (H : fst (admit_once Abort max recs i f) <> ACreated).
+  { unfold admit_once. destruct i; [cbn; discriminate|].
+    destruct (count_reads Abort recs f) as [c|] eqn:E; [|cbn; discriminate].
+    apply count_reads_abort_exact in E. subst c.
+    destruct (max <=? active recs) eqn:El; [cbn; discriminate|]. apply Nat.leb_gt in El. lia. }
+  split; [exact H|]. apply admit_not_created_unchanged, H.
+Qed.
+
+(* ... and below the quota it never over-admits either: the limit is preserved by one admission under any faults *)
+Theorem quota_abort_preserves_limit max recs i f :
+  active recs <= max -> active (snd (admit_once Abort max recs i f)) <= max.
+Proof.
+  intros Hb. unfold admit_once. destruct i; [cbn; exact Hb|].
+  destruct (count_reads Abort recs f) as [c|] eqn:E; [|cbn; exact Hb].
+  apply count_reads_abort_exact in E. subst c.
+  destruct (max <=? active recs) eqn:El; cbn [snd]; [exact Hb|]. apply Nat.leb_gt in El. unfold active in *. cbn. lia.
+Qed.
+
+(* without a failing read the lenient listings refuse at the full quota as well (guard: no read fault) *)
+Theorem quota_lenient_refuses_without_fault p max recs :
+  max <= active recs -> admit_once p max recs false [] = (ARefused, recs).
+Proof.
+  intros Hfull. unfold admit_once. rewrite count_reads_no_fault.
+  destruct (max <=? active recs) eqn:El; [reflexivity|]. apply Nat.leb_gt in El. lia.
+Qed.
+
+(* the skipping listing: ONE failed by-id read at a full quota admits one more *)
+Lemma quota_skip_refuted :
+  exists recs f, active recs = 3 /\ countb (fun b => b) f = 1 /\
+                 admit_once SkipRecord 3 recs false f = (ACreated, true :: recs).
+Proof. exists [true; true; true], [false; true; false]. vm_compute. auto. Qed.
+
+(* the activation's listing as found: a failed index read is an empty listing, a failed by-id read is skipped *)
+Lemma quota_open_refuted :
+  admit_once Open 1 [true] true [] = (ACreated, [true; true]) /\
+  admit_once Open 1 [true] false [true] = (ACreated, [true; true]).
+Proof. vm_compute. auto. Qed.
+
+(* ================================================================ 6. the repaired quota admission (per-client marker) *)
+Section Locked.
+  Variable max : nat.
+  Variable base : nat.
+
+  Definition LInv (s : lsh * list lloc) : Prop :=
+    countb l_holds (snd s) + countb l_counted (snd s) = (if q_lock (fst s) then 1 else 0) /\
+    q_n (fst s) = base + countb l_created (snd s) /\
+    q_n (fst s) + countb l_counted (snd s) <= max.
+
+  Lemma l_step s i : LInv s -> LInv (sys_step _ _ (lstep max) s i).
+  Proof.
+    destruct s as [sh ls]. unfold LInv, sys_step. cbn [fst snd]. intros (Hk & Hn & Hr).
+    destruct (nth_error ls i) as [lo|] eqn:E; [|cbn [fst snd]; auto].
+    pose proof (fun x => countb_upd_nth l_holds ls i lo x E) as HK.
+    pose proof (fun x => countb_upd_nth l_counted ls i lo x E) as HC.
+    pose proof (fun x => countb_upd_nth l_created ls i lo x E) as HD.
+    destruct lo as [pc fl]. destruct sh as [n lk]. unfold lstep. cbn [l_pc l_fault q_n q_lock] in *.
+    destruct pc.
+    - match goal with |- context [upd_nth i ?x ls] => specialize (HK x); specialize (HC x); specialize (HD x) end.
+      cbn in HK, HC, HD |- *. lia.
+    - destruct lk;
+        match goal with |- context [upd_nth i ?x ls] => specialize (HK x); specialize (HC x); specialize (HD x) end;
+        cbn in HK, HC, HD |- *; lia.
+    - destruct fl; [|destruct (max <=? n) eqn:El];
+        match goal with |- context [upd_nth i ?x ls] => specialize (HK x); specialize (HC x); specialize (HD x) end;
+        cbn in HK, HC, HD |- *; try (apply Nat.leb_gt in El); destruct lk; lia.
+    - match goal with |- context [upd_nth i ?x ls] => specialize (HK x); specialize (HC x); specialize (HD x) end.
+      cbn in HK, HC, HD |- *. destruct lk; lia.
+    - match goal with |- context [upd_nth i ?x ls] => specialize (HK x); specialize (HC x); specialize (HD x) end.
+      cbn in HK, HC, HD |- *. destruct lk; lia.
+    - match goal with |- context [upd_nth i ?x ls] => specialize (HK x); specialize (HC x); specialize (HD x) end.
+      cbn in HK, HC, HD |- *. destruct lk; lia.
+    - match goal with |- context [upd_nth i ?x ls] => specialize (HK x); specialize (HC x); specialize (HD x) end.
+      cbn in HK, HC, HD |- *. destruct lk; lia.
+    - match goal with |- context [upd_nth i ?x ls] => specialize (HK x); specialize (HC x); specialize (HD x) end.
+      cbn in HK, HC, HD |- *. lia.
+    - match goal with |- context [upd_nth i ?x ls] => specialize (HK x); specialize (HC x); specialize (HD x) end.
+      cbn in HK, HC, HD |- *. lia.
+    - match goal with |- context [upd_nth i ?x ls] => specialize (HK x); specialize (HC x); specialize (HD x) end.
+      cbn in HK, HC, HD |- *. lia.
+    - match goal with |- context [upd_nth i ?x ls] => specialize (HK x); specialize (HC x); specialize (HD x) end.
+      cbn in HK, HC, HD |- *. lia.
+  Qed.
+
+  Lemma l_all sh ts sched : LInv (sh, ts) -> LInv (lrun max sh ts sched).
+  Proof. intros H. unfold lrun. apply inv_all_schedules; [intros s i; apply l_step|exact H]. Qed.
+End Locked.
+
+Lemma l_fresh (faults : list bool) :
+  countb l_holds (map l_new faults) = 0 /\ countb l_counted (map l_new faults) = 0 /\ countb l_created (map l_new faults) = 0.
+Proof. induction faults as [|f t (I1 & I2 & I3)]; cbn; auto. Qed.
+
+(* any limit, any number of requests of one client, any of them hitting a failing read, any schedule of their storage-level
+   steps: the active count never exceeds the limit, it is exact, and the marker is held by at most one request *)
+Theorem quota_locked_never_exceeds max base (faults : list bool) sched :
+  base <= max ->
+  let s := lrun max {| q_n := base; q_lock := false |} (map l_new faults) sched in
+  q_n (fst s) <= max /\
+  q_n (fst s) = base + countb l_created (snd s) /\
+  countb l_holds (snd s) + countb l_counted (snd s) = (if q_lock (fst s) then 1 else 0).
+Proof.
+  intros Hb s. destruct (l_fresh faults) as (F1 & F2 & F3).
+  assert (H : LInv max base s).
+  { apply l_all. unfold LInv. cbn [fst snd q_n q_lock]. rewrite F1, F2, F3. lia. }
+  destruct H as (Hk & Hn & Hr). split; [lia|]. split; [exact Hn|exact Hk].
+Qed.
+
+(* a request that loses the SetNX, is refused at the limit, or hits a failing read never touches the count *)
+Lemma quota_locked_step_count max lo sh lo' sh' :
+  lstep max lo sh = (lo', sh') -> q_n sh' <> q_n sh -> l_pc lo = LCounted /\ l_pc lo' = LDoneHeld /\ q_n sh' = S (q_n sh).
+Proof.
+  destruct lo as [pc fl]. unfold lstep. cbn [l_pc l_fault]. intros H Hn.
+  destruct pc; try (injection H as <- <-; cbn in Hn; congruence).
+  - destruct (q_lock sh); injection H as <- <-; cbn in Hn; congruence.
+  - destruct fl; [|destruct (max <=? q_n sh)]; injection H as <- <-; cbn in Hn; congruence.
+  - injection H as <- <-. cbn. auto.
+Qed.
+
+Example quota_locked_witness :
+  let s := lrun 2 {| q_n := 1; q_lock := false |} [l_new false; l_new false; l_new true]
+                [0; 1; 2; 0; 0; 1; 0; 0; 2; 2; 2; 2] in
+  fst s = {| q_n := 2; q_lock := false |} /\ map l_pc (snd s) = [LCreated; LBusy; LFailed].
+Proof. vm_compute. auto. Qed.
